@@ -922,6 +922,7 @@ class IRGenerator:
                         # Verify that the type of the default value is correct for this field
                         try:
                             if (field.data_type.name in ('Float32', 'Float64') and
+                                    default_value is not None and
                                     not isinstance(default_value, TagRef)):
                                 # You can assign int to the default value of float type
                                 # However float type should always have default value in float
